@@ -4,11 +4,14 @@ for ids on both sides keep ours unless theirs is listed in argv[1:] as 'take the
 import json, subprocess, sys
 def blob(stage):
     return json.loads(subprocess.run(["git", "show", f":{stage}:known_findings.json"], capture_output=True, text=True, check=True).stdout)
-ours, theirs = blob(2), blob(3)
+base, ours, theirs = blob(1), blob(2), blob(3)
+base_ids = {e.get('id') for e in base['findings']}
 take = set(sys.argv[1:])
 ids = {e.get("id"): i for i, e in enumerate(ours["findings"])}
 for e in theirs["findings"]:
     if e.get("id") not in ids:
+        if e.get("id") in base_ids:
+            print("not resurrecting", e.get("id")); continue   # deleted on our side since the merge base
         ours["findings"].append(e); print("added", e.get("id"))
     elif e.get("id") in take or (e != ours["findings"][ids[e["id"]]] and e.get("property") in take):
         ours["findings"][ids[e["id"]]] = e; print("took theirs", e.get("id"))
